@@ -26,7 +26,10 @@ import (
 	"time"
 )
 
-const (
+// verifDir is /verif. VERIF_HOME relocates it (only used to run long sweeps
+// from a frozen snapshot of /verif while /verif itself is being edited; the
+// registered commands never set it).
+var (
 	verifDir = "/verif"
 	simDir   = "/verif/sim"
 )
@@ -41,6 +44,11 @@ var repoDir = "/repo"
 var outDir = "/verif"
 
 func init() {
+	if h := os.Getenv("VERIF_HOME"); h != "" {
+		verifDir = h
+		simDir = filepath.Join(h, "sim")
+		outDir = h
+	}
 	if r := os.Getenv("VERIF_REPO"); r != "" {
 		repoDir = r
 	}
